@@ -122,6 +122,34 @@ Section Run.
         let '(r, s'') := run_queries s' t in
         (ans_of a :: r, s'')
     end.
+  (** Interleaved history: records are added segment by segment; after each
+      segment but the last the index built so far is queried (action bit 1)
+      and/or written, which sorts it (bit 2), and its structure is observed;
+      then adding carries on.  Everything stops at the first failing Add. *)
+  Definition all_zero (codes : list Z) : bool := forallb (fun c => c =? 0) codes.
+
+  Fixpoint run_hist (fuel : nat) (sortf : S -> S) (dumpf : S -> idump) (s : S) (rs : list irec)
+           (hist : list (Z * Z)) (qs : list (Z * Z * Z))
+    : S * list Z * bool * list (idump * list qans) :=
+    match fuel, hist with
+    | Datatypes.S f, (n, act) :: (_ :: _) as rest =>
+        let k := Z.to_nat n in
+        let seg := firstn k rs in
+        let rs' := skipn k rs in
+        match rs' with
+        | [] => let '(s1, codes, p) := run_adds s rs in (s1, codes, p, [])
+        | _ =>
+            let '(s1, codes, p) := run_adds s seg in
+            if p || negb (all_zero codes) then (s1, codes, p, [])
+            else if n <=? 0 then run_hist f sortf dumpf s1 rs' (tl hist) qs
+            else
+              let '(ans, s2) := if Z.odd act then run_queries s1 qs else ([], s1) in
+              let s3 := if Z.land act 2 =? 0 then s2 else sortf s2 in
+              let '(s4, codes', p', mids) := run_hist f sortf dumpf s3 rs' (tl hist) qs in
+              (s4, codes ++ codes', p', (dumpf s3, ans) :: mids)
+        end
+    | _, _ => let '(s1, codes, p) := run_adds s rs in (s1, codes, p, [])
+    end.
 End Run.
 
 Inductive ixstrat := SNil | SIdentity | SAdjacent | SSquash | SComp (near : Z).
@@ -145,10 +173,12 @@ Record ixobs := mkObs {
   o_codes : list Z; o_panic : bool; o_full : bool;
   o_dump : idump; o_stat : istat; o_q1 : list qans;
   o_dump3 : idump; o_q3 : list qans;
-  o_p1 : list (list chunk); o_p3 : list (list chunk) }.   (* what the public Chunks returned (Adjacent applied) *)
+  o_p1 : list (list chunk); o_p3 : list (list chunk);
+  o_mid : list (idump * list qans) }.                     (* structure and answers at the boundaries of the history *)   (* what the public Chunks returned (Adjacent applied) *)
 
 Record ixcase := mkCase {
   k_kind : ixkind; k_recs : list irec; k_queries : list (Z * Z * Z); k_strat : ixstrat;
+  k_hist : list (Z * Z);   (* interleaved history: (records in the segment, action after it) *)
   k_qstrat : ixstrat;      (* bam.Index.MergeStrategy, applied by the public Chunks (nil = Adjacent) *)
   k_obs : ixobs }.
 
@@ -160,7 +190,7 @@ Section Agree.
       answers (index.Adjacent applied to the raw list) before and after the merge. *)
   Definition run_compare (c : ixcase) : list bool :=
     let o := k_obs c in
-    let '(s, codes, p) := run_adds m init (k_recs c) in
+    let '(s, codes, p, mids) := run_hist m (Datatypes.S (length (k_hist c))) (m_sort m) (m_dump m) init (k_recs c) (k_hist c) (k_queries c) in
     let c1 := xlist_eqb Z.eqb codes (o_codes o) && Bool.eqb p (o_panic o) in
     if negb (o_full o) then [c1] else
     let '(a1, s1) := run_queries m s (k_queries c) in
@@ -171,7 +201,8 @@ Section Agree.
     [c1; idump_eqb (m_dump m s) (o_dump o); istat_eqb (m_stat m s) (o_stat o);
      xlist_eqb qans_eqb a1 (o_q1 o); idump_eqb (m_dump m s3) (o_dump3 o); xlist_eqb qans_eqb a3 (o_q3 o);
      xlist_eqb chunks_eqb (map (fun a => pub (snd a)) a1) (o_p1 o);
-     xlist_eqb chunks_eqb (map (fun a => pub (snd a)) a3) (o_p3 o)].
+     xlist_eqb chunks_eqb (map (fun a => pub (snd a)) a3) (o_p3 o);
+     xlist_eqb (xpair_eqb idump_eqb (xlist_eqb qans_eqb)) mids (o_mid o)].
 End Agree.
 
 Definition ix_explain (c : ixcase) : list bool :=
